@@ -357,8 +357,19 @@ def kind_of(cuqi, o):
     return 99
 
 
+ALT = 60           # ids 60.. : alternative VALUES (never keys): a second value for some variable, vals[60], vals[61]
+ATTR = 100         # ids 100+i : the attribute name "q<i>" of the i-th mutable variable (fixed value or callable) of a PolyDist
+STACKKEY = 78      # the keyword `stacked_input` of _StackedJointDistribution.logd
+
+
 def name_of(names, key):
-    return "foo" if key == UNKNOWN else names[key]
+    if key == UNKNOWN:
+        return "foo"
+    if key == STACKKEY:
+        return "stacked_input"
+    if key >= ATTR:
+        return "q%d" % (key - ATTR)
+    return names[key]
 
 
 def stack_vec(vals, ids):
@@ -367,6 +378,8 @@ def stack_vec(vals, ids):
 
 def do_call(f, names, vals, call):
     if "stack" in call:
+        if call.get("stackkw"):
+            return f(stacked_input=np.array(stack_vec(vals, call["stack"])))
         return f(np.array(stack_vec(vals, call["stack"])))
     args = [toarg(vals[j]) for j in call["args"]]
     kw = {name_of(names, k): toarg(vals[j]) for k, j in call["kw"]}
@@ -467,22 +480,25 @@ def cslot(s):
 
 
 
-def cdist(spec, vals, value):
-    """mk_dist name dim slots 0 (table with the single key of this case)"""
-    key = [vals[j] for j in cond_vars_py(spec["slots"])] + [vals[spec["name"]]]
-    return "(qmk %s %s %s 0 [(%s, %s)])" % (
+def cdist(spec, vals, value, alts=()):
+    """mk_dist name dim slots 0 (table with the key of this case; alts = [(override {var: value id}, value)] further entries)"""
+    ids = cond_vars_py(spec["slots"]) + [spec["name"]]
+    entries = [([vals[j] for j in ids], value)] + [([vals[ov.get(j, j)] for j in ids], v) for ov, v in alts]
+    return "(qmk %s %s %s 0 %s)" % (
         cvar(spec["name"]), cnat(spec["dim"]), clist([cslot(s) for s in spec["slots"]]),
-        clist([cqval(k) for k in key]), cq(value))
+        clist(["(%s, %s)" % (clist([cqval(k) for k in key]), cq(v)) for key, v in entries]))
 
 
-def cdens(spec, vals, value, pre):
+def cdens(spec, vals, value, pre, alts=()):
     if pre:
-        return "(qL %s %s)" % (cdist(spec, vals, value), cqval(vals[spec["name"]]))
-    return "(qD %s)" % cdist(spec, vals, value)
+        return "(qL %s %s)" % (cdist(spec, vals, value, alts), cqval(vals[spec["name"]]))
+    return "(qD %s)" % cdist(spec, vals, value, alts)
 
 
 def ccall(vals, call):
     if "stack" in call:
+        if call.get("stackkw"):
+            return "([], [(%s, %s)])" % (cvar(STACKKEY), cqval(stack_vec(vals, call["stack"])))
         return "(%s, [])" % clist([cqval(stack_vec(vals, call["stack"]))])
     return "(%s, %s)" % (clist([cqval(vals[j]) for j in call["args"]]),
                          clist(["(%s, %s)" % (cvar(k), cqval(vals[j])) for k, j in call["kw"]]))
@@ -829,7 +845,7 @@ def slots_case(ctx, cuqi, rng):
 # ------------------------------------------------------------------------------------------
 HSHAPES = ["indeproot", "indep", "pair", "chain", "hier", "hier5", "mlp2", "mlp3h", "twoarg", "threearg", "multifirst", "unset", "random"]
 HKINDS = ["dist", "posterior", "mlp", "joint"]
-HIST_VARIANTS = ("history", "problem-history", "dens-history")
+HIST_VARIANTS = ("history", "problem-history", "dens-history", "user-posterior")
 
 
 def subset_for_kind(rng, fs, n, kind):
@@ -872,19 +888,74 @@ class Prog:
          ("view", which, src, expect_ok) problem.likelihood / problem.prior
        and per object: params (ordered), flavour, expected value of a complete evaluation"""
 
-    def __init__(self, rng, fs, fvalue):
-        self.rng, self.fs, self.fvalue = rng, fs, fvalue
+    def __init__(self, rng, fs, fvalue, vals=None):
+        self.rng, self.fs, self.fvalue, self.vals, self.alts = rng, fs, fvalue, vals, {}
         self.total = sum(fvalue.values())
         self.ops = []
         self.objs = [{"book": Book(fs, []), "flav": "joint", "expect": self.total, "reduced": False, "alive": True}]
 
     def params(self, i):
         o = self.objs[i]
+        if o["flav"] == "fac":
+            free = [v for v in cond_vars_py(o["spec"]["slots"]) if v not in o["bound"]]
+            return free + ([] if o["lik"] else [o["spec"]["name"]])
         return o["params"] if "params" in o else o["book"].params()
+
+    # -- single factor objects of the joint (the very objects the joint holds), conditioned directly --
+    def factor(self, k):
+        f = self.fs[k]
+        self.ops.append(("factor", 0, k))
+        idx = self.new(flav="fac", spec=f, bound={}, lik=False, data=None, expect=self.fvalue[f["name"]], reduced=True, book=None)
+        self.eval_all()
+        return idx
+
+    def fcond(self, src, sub, use=None):
+        """condition a factor object on `sub` by keyword; use = {var: value id} passes another VALUE for a variable (ALT ids)"""
+        o = self.objs[src]
+        use = use or {}
+        kwv = list(sub); self.rng.shuffle(kwv)
+        self.ops.append(("cond", src, {"args": [], "kw": [[v, use.get(v, v)] for v in kwv]}, ""))
+        f = o["spec"]
+        bound = dict(o["bound"]); data = o["data"]; lik = o["lik"]
+        for v in sub:
+            if v == f["name"]:
+                lik, data = True, use.get(v, v)
+            else:
+                bound[v] = use.get(v, v)
+        ov = {v: j for v, j in bound.items() if j != v}
+        if lik and data != f["name"]:
+            ov[f["name"]] = data
+        expect = self.alt_value(f, ov) if ov else self.fvalue[f["name"]]
+        idx = self.new(flav="fac", spec=f, bound=bound, lik=lik, data=data, expect=expect, reduced=True, book=None, ov=ov)
+        self.eval_all()
+        return idx
+
+    def alt_value(self, f, ov):
+        v = factor_value_py(f, {**self.vals, **{k: self.vals[j] for k, j in ov.items()}})
+        self.alts.setdefault(f["name"], [])
+        if (ov, v) not in self.alts[f["name"]]:
+            self.alts[f["name"]].append((dict(ov), v))
+        return v
+
+    def mkpost(self, l, p_):
+        """Posterior(likelihood, prior, name=prior.name) built by the user"""
+        self.ops.append(("mkpost", l, p_))
+        x = self.objs[p_]["spec"]["name"]
+        idx = self.new(flav="upost", params=[x], expect=self.objs[l]["expect"] + self.objs[p_]["expect"], reduced=True, book=None)
+        self.eval_all()
+        return idx
+
+    def setview(self, which, t, src):
+        """problem.likelihood = obj / problem.prior = obj : the Posterior target object itself changes"""
+        self.ops.append(("setlik" if which == 0 else "setprior", t, src))
+        o = self.objs[t]
+        o["expect"] = o["expect"] - o["parts"][which] + self.objs[src]["expect"]
+        o["parts"][which] = self.objs[src]["expect"]
+        self.eval_all()
 
     def kind(self, i):
         o = self.objs[i]
-        if o["flav"] in ("lik", "prior", "E"):
+        if o["flav"] in ("lik", "prior", "E", "fac", "upost"):
             return o["flav"]
         k = o["book"].kind()
         if not o["reduced"]:
@@ -897,7 +968,7 @@ class Prog:
             return
         ps = self.params(i)
         if o["flav"] == "stacked":
-            call = {"args": [], "kw": [], "stack": list(ps)}
+            call = {"args": [], "kw": [], "stack": list(ps), "stackkw": self.rng.random() < 0.35}
         else:
             call = full_call(self.rng, ps, positional=self.rng.random() < 0.3)
         self.ops.append(("eval", i, call, o["expect"]))
@@ -935,6 +1006,19 @@ class Prog:
         if o["flav"] == "stacked" and (len(b.params()) != 1):
             flav = "stacked"          # copy(self) keeps the class unless the reduction builds another object
         idx = self.new(book=b, flav=flav, expect=self.total, reduced=True, alive=alive)
+        self.eval_all()
+        return idx
+
+    def pcond(self, src, positional):
+        """condition a Posterior object (reduced or user-built) on its own parameter"""
+        o = self.objs[src]
+        x = self.params(src)
+        if positional:
+            call, tag, alive = {"args": list(x), "kw": []}, "", True
+        else:
+            call, tag, alive = {"args": [], "kw": [[x[0], x[0]]]}, "postkw", STATE["pnamed"]
+        self.ops.append(("cond", src, call, tag))
+        idx = self.new(flav="E", params=[], expect=o["expect"], reduced=True, book=None, alive=alive)
         self.eval_all()
         return idx
 
@@ -1003,12 +1087,38 @@ def history_program(rng, fs, n, kind, order, fvalue, with_stack=True):
     return P
 
 
-def problem_program(rng, fs, n, kind, fvalue):
+def user_posterior_program(rng, fs, n, fvalue, vals):
+    """the factor objects of the joint conditioned directly, a Posterior built by the user from them, and the joint itself
+    conditioned afterwards (the factor objects are shared)"""
+    pairs = [(fy, x) for fy in fs for x in deps(fy)]
+    if not pairs:
+        return None
+    fy, x = rng.choice(pairs)
+    fxs = [f for f in fs if f["name"] == x][0]
+    P = Prog(rng, fs, fvalue, vals)
+    P.eval_all()
+    o = P.factor(fs.index(fy))
+    hy = [v for v in cond_vars_py(fy["slots"]) if v != x]
+    for v in hy:                                   # hyper-parameters of the data distribution one per call
+        o = P.fcond(o, [v])
+    ly = P.fcond(o, [fy["name"]])
+    px = P.factor(fs.index(fxs))
+    hx = cond_vars_py(fxs["slots"])
+    if hx:
+        px = P.fcond(px, hx)
+    up = P.mkpost(ly, px)
+    P.pcond(up, positional=True)
+    P.pcond(up, positional=False)
+    P.cond(0, [fy["name"]] + hy)
+    return P
+
+
+def problem_program(rng, fs, n, kind, fvalue, vals=None):
     """BayesianProblem(*factors, **data), set_data, and its likelihood / prior / posterior views of the same joint"""
     S = subset_for_kind(rng, fs, n, kind)
     if S is None:
         return None
-    P = Prog(rng, fs, fvalue)
+    P = Prog(rng, fs, fvalue, vals)
     P.eval_all()
     S = list(S); rng.shuffle(S)
     cut = rng.randint(0, len(S))
@@ -1039,6 +1149,25 @@ def problem_program(rng, fs, n, kind, fvalue):
             P.eval_all()
         # the data can no longer be set
         target_op("setdata", t, [], False)
+        # the setters write into the Posterior target in place: a new prior (one hyper-parameter at ANOTHER value) and a
+        # new likelihood (OTHER data), both made from the factor objects the joint holds
+        if vals is not None:
+            P.objs[t]["parts"] = [fvalue[likf["name"]], fvalue[x]]
+            fxs = [f for f in fs if f["name"] == x][0]
+            px = P.factor(fs.index(fxs))
+            hx = cond_vars_py(fxs["slots"])
+            if hx:
+                h = rng.choice(hx)
+                vals[ALT] = rand_vec(rng, len(vals[h]))
+                px = P.fcond(px, hx, use={h: ALT})
+            P.setview(1, t, px)
+            o = P.factor(fs.index(likf))
+            hy = [v for v in cond_vars_py(likf["slots"]) if v != x]
+            if hy:
+                o = P.fcond(o, hy)
+            vals[ALT + 1] = rand_vec(rng, len(vals[likf["name"]]))
+            ly = P.fcond(o, [likf["name"]], use={likf["name"]: ALT + 1})
+            P.setview(0, t, ly)
     else:
         P.ops.append(("view", rng.randint(0, 1), t, False))
         P.new(book=P.objs[t]["book"], flav="E", expect=None, params=[], reduced=True, alive=False)
@@ -1065,14 +1194,26 @@ def run_history(cuqi, start, names, vals, ops, facs=None):
                 o = objs[op[1]]._as_stacked()
             elif kind == "join":
                 o = cuqi.distribution.JointDistribution(*[objs[i] for i in op[1]])
+            elif kind == "factor":
+                o = facs[op[2]]
+            elif kind == "mkpost":
+                o = cuqi.distribution.Posterior(objs[op[1]], objs[op[2]], name=objs[op[2]].name)
+            elif kind in ("setlik", "setprior"):
+                bp = bps[op[1]]
+                if kind == "setlik":
+                    bp.likelihood = objs[op[2]]
+                else:
+                    bp.prior = objs[op[2]]
+                res.append(observe_stage(cuqi, bp._target, names))
+                continue
             elif kind == "bpinit":
                 from cuqi.problem import BayesianProblem
-                bp = BayesianProblem(*facs, **{name_of(names, k): np.array(vals[j]) for k, j in op[2]})
+                bp = BayesianProblem(*facs, **{name_of(names, k): toarg(vals[j]) for k, j in op[2]})
                 o = bp._target
                 bps[len(objs)] = bp
             elif kind == "setdata":
                 bp = bps[op[1]]
-                bp.set_data(**{name_of(names, k): np.array(vals[j]) for k, j in op[2]})
+                bp.set_data(**{name_of(names, k): toarg(vals[j]) for k, j in op[2]})
                 o = bp._target
                 bps[len(objs)] = bp
             elif kind == "view":
@@ -1086,6 +1227,8 @@ def run_history(cuqi, start, names, vals, ops, facs=None):
         except Exception:
             o = None
             res.append(None)
+        if kind in ("setlik", "setprior"):
+            continue                      # refused: nothing changes, no new object
         objs.append(o)
     return res
 
@@ -1106,14 +1249,23 @@ def history_oracle(ops, res, total, rel=0):
                 return ("%s gives %s, expected %s" % (what, None if r is None else float(r), exp),
                         "shared-state|earlier-object-changed" if older else "value|history-child")
             continue
+        if kind in ("setlik", "setprior"):
+            if r is None:
+                return "likelihood/prior setter of a problem with a Posterior target raised", "condition-raised|setter"
+            continue
         newest += 1
         if kind == "cond" and r is None:
+            if op[3] == "attr":
+                continue
             if op[3] == "postkw":
                 if not STATE["pnamed"]:
                     return ("object %d is a Posterior; conditioning it on its own parameter by keyword raised" % op[1], SIG_POST_KW)
                 return ("object %d is a Posterior; conditioning it on its own parameter by keyword raised" % op[1], "condition-raised|posterior-keyword")
             return "conditioning object %d raised on a well-formed call" % op[1], "condition-raised|history"
-        if kind in ("stack", "bpinit", "join") and r is None:
+        if kind == "cond" and op[3] == "attr" and r is not None:
+            return ("conditioning object %d on the attribute name of a mutable variable that is not a conditioning variable was accepted" % op[1],
+                    "not-refused|attribute-keyword")
+        if kind in ("stack", "bpinit", "join", "factor", "mkpost") and r is None:
             return "%s on object %d raised" % (kind, op[1]), "condition-raised|" + kind
         if kind == "setdata":
             if op[3] and r is None:
@@ -1137,6 +1289,12 @@ def chop(vals, op, r, pre="q", cst=None):
         return "(%sStack %s %s)" % (pre, cnat(op[1]), cst(r))
     if kind == "join":
         return "(%sJoin %s %s)" % (pre, clist([cnat(i) for i in op[1]]), cst(r))
+    if kind == "factor":
+        return "(%sFactor %s %s %s)" % (pre, cnat(op[1]), cnat(op[2]), cst(r))
+    if kind == "mkpost":
+        return "(%sMkPost %s %s %s)" % (pre, cnat(op[1]), cnat(op[2]), cst(r))
+    if kind in ("setlik", "setprior"):
+        return "(%s%s %s %s %s)" % (pre, "SetLik" if kind == "setlik" else "SetPrior", cnat(op[1]), cnat(op[2]), cst(r))
     if kind == "setdata":
         return "(%sSetData %s %s %s)" % (pre, cnat(op[1]), clist(["(%s, %s)" % (cvar(k), cqval(vals[j])) for k, j in op[2]]), cst(r))
     if kind == "view":
@@ -1150,7 +1308,12 @@ def history_case(ctx, cuqi, strict, shape, kind, order, rng, variant="history"):
     names = rng.sample(VARNAMES, n)
     vals = {f["name"]: rand_vec(rng, f["dim"]) for f in fs}
     fvalue = {f["name"]: factor_value_py(f, vals) for f in fs}
-    P = history_program(rng, fs, n, kind, order, fvalue) if variant == "history" else problem_program(rng, fs, n, kind, fvalue)
+    if variant == "history":
+        P = history_program(rng, fs, n, kind, order, fvalue)
+    elif variant == "user-posterior":
+        P = user_posterior_program(rng, fs, n, fvalue, vals)
+    else:
+        P = problem_program(rng, fs, n, kind, fvalue, vals)
     if P is None:
         return None
     ops, total = P.ops, P.total
@@ -1160,7 +1323,7 @@ def history_case(ctx, cuqi, strict, shape, kind, order, rng, variant="history"):
     fail, sig = history_oracle(ops, res, total)
     meta = {"family": "poly", "variant": variant, "shape": shape, "branch": kind, "order": order, "names": names, "factors": fs,
             "values": {str(k): v for k, v in vals.items()}, "ops": [list(op) for op in ops[:len(res)]]}
-    expr = "check_history %s 0%%Q %s %s" % (flags(), clist([cdens(f, vals, fvalue[f["name"]], False) for f in fs]),
+    expr = "check_history %s 0%%Q %s %s" % (flags(), clist([cdens(f, vals, fvalue[f["name"]], False, alts=P.alts.get(f["name"], ())) for f in fs]),
                                            clist([chop(vals, op, r) for op, r in zip(ops, res)]))
     return Case(expr=expr, meta=meta, cell="poly/%s/%s/%s/order%d" % (variant, shape, kind, order), kind="EXACT", impl_fail=fail, signature=sig)
 
@@ -1189,11 +1352,20 @@ def dens_history_case(ctx, cuqi, rng, nargs):
 
     def params(i):
         o = objs[i]
+        if o.get("dead"):
+            return None
         return [v for v in cv if v not in o["bound"]] + ([] if o["lik"] else [0])
 
     def eval_all():
         for i in range(len(objs)):
-            ops.append(("eval", i, full_call(rng, params(i), positional=rng.random() < 0.4), value))
+            if params(i) is not None:
+                ops.append(("eval", i, full_call(rng, params(i), positional=rng.random() < 0.4), value))
+
+    def refused(src, key, val):
+        """a keyword naming a mutable variable (attribute) that is not a conditioning variable must be refused"""
+        ops.append(("cond", src, {"args": [], "kw": [[key, val]]}, "attr"))
+        objs.append({"dead": True})
+        eval_all()
 
     def cond(src, sub, positional=False):
         o = objs[src]
@@ -1214,6 +1386,8 @@ def dens_history_case(ctx, cuqi, rng, nargs):
     cur = 0
     for v in staged:                       # the arguments of the multi-argument callable one per call
         cur = cond(cur, [v], positional=False)
+    refused(cur, ATTR + rng.randrange(len(slots)), staged[0])       # the attribute name of a callable / fixed mutable variable
+    refused(0, ATTR + slots.index([sl for sl in slots if sl["kind"] == "fn"][0]), staged[0])
     a = cond(0, [staged[0]])               # a second child of the ORIGINAL distribution: same variable again
     b = cond(0, [0])                       # the original as a likelihood
     cond(b, [staged[-1]])                  # and the likelihood conditioned
@@ -1293,6 +1467,10 @@ def run(ctx):
                 c = guarded(history_case, "problem-history", ctx, cuqi, strict, shape, kind, 0, rng, variant="problem-history")
                 if c is not None:
                     cases.append(c)
+        for _ in range(ctx.n(2, 8)):
+            c = guarded(history_case, "user-posterior", ctx, cuqi, strict, shape, "any", 0, rng, variant="user-posterior")
+            if c is not None:
+                cases.append(c)
     ctx.note("branching histories per reduction branch: %s" % hist_cells)
     for nargs in (1, 2, 3, 4):
         for _ in range(ctx.n(6, 40)):
@@ -1416,9 +1594,17 @@ def real_family_cases(ctx, cuqi, strict):
                 cv = list(d_.get_conditioning_variables())
                 fs.append({"name": idx[d_.name], "dim": int(d_.dim), "slots": [{"kind": "fn", "args": [idx[k] for k in cv]}] if cv else [{"kind": "fixed"}]})
                 fvalue[idx[d_.name]] = float(np.asarray(d_.logd(**{k: asg[k] for k in cv + [d_.name]})).ravel()[0])
+            # the stacked view hands every variable to the user's callables as a 1-d array: hierarchies whose callables are
+            # written for scalars only cannot be evaluated through it at all (not judged), the others get the stacked ops
+            try:
+                cuqi.distribution.JointDistribution(*dists)._as_stacked().logd(np.array(stack_vec(vals, list(range(n)))))
+                stack_ok = True
+            except Exception:
+                stack_ok = False
             for kind in HKINDS:
-                for order in (0, 1):
-                    P = history_program(rng, fs, n, kind, order, fvalue, with_stack=False)
+                for order in (0, 1, 2):
+                    # order 2: the BayesianProblem program (constructor, set_data, views) on the real factors
+                    P = history_program(rng, fs, n, kind, order, fvalue, with_stack=stack_ok) if order < 2 else problem_program(rng, fs, n, kind, fvalue)
                     if P is None:
                         continue
                     start = cuqi.distribution.JointDistribution(*dists)
@@ -1532,10 +1718,14 @@ def replay(ctx, meta):
                     op[1], shown, "RAISED" if r is None else r, "an error / not judged" if op[3] is None else op[3],
                     "" if (op[3] is None or r == op[3]) else "   <-- DIFFERS"))
                 continue
-            nobj += 1
+            nobj += 0 if op[0] in ("setlik", "setprior") else 1
             desc = {"cond": lambda: "object %d conditioned positional=%s keywords=%s" % (op[1], [names[j] for j in op[2]["args"]], [name_of(names, k) for k, _ in op[2]["kw"]]),
                     "stack": lambda: "object %d ._as_stacked()" % op[1],
                     "join": lambda: "JointDistribution(object %s)" % op[1],
+                    "factor": lambda: "factor object number %d of the joint" % op[2],
+                    "mkpost": lambda: "Posterior(object %d, object %d, name=prior.name)" % (op[1], op[2]),
+                    "setlik": lambda: "problem of object %d .likelihood = object %d  (target changed in place)" % (op[1], op[2]),
+                    "setprior": lambda: "problem of object %d .prior = object %d  (target changed in place)" % (op[1], op[2]),
                     "bpinit": lambda: "BayesianProblem(*factors, %s)._target" % [name_of(names, k) for k, _ in op[2]],
                     "setdata": lambda: "problem of object %d .set_data(%s)._target" % (op[1], [name_of(names, k) for k, _ in op[2]]),
                     "view": lambda: "problem of object %d .%s" % (op[2], "likelihood" if op[1] == 0 else "prior")}[op[0]]()
